@@ -886,6 +886,128 @@ def _apply_renames(fn: ast.AST, mapping: dict) -> None:
             setattr(n, attr, mapping.get(getattr(n, attr), getattr(n, attr)))
 
 
+# ---------------------------------------------------------------------------------------------------------------
+# new aliases: a refactoring likes to name a sub-expression once (`row = matrix[i]`, `inf = float("inf")`,
+# `n_orig = len(clauses)`) where the baseline wrote it in place.  A local the baseline unit does not have, bound once
+# to a side-effect-free access path / constant whose parts are not rebound while it is in use, is substituted back.
+# ---------------------------------------------------------------------------------------------------------------
+_MUTATING = {"append", "extend", "insert", "pop", "remove", "clear", "sort", "reverse", "add", "discard", "update", "popleft", "appendleft", "setdefault", "popitem"}
+
+
+def _path_ok(e: ast.AST) -> bool:
+    if isinstance(e, (ast.Name, ast.Constant)):
+        return True
+    if isinstance(e, ast.Attribute):
+        return _path_ok(e.value)
+    if isinstance(e, ast.Subscript):
+        return _path_ok(e.value) and _path_ok(e.slice)
+    if isinstance(e, ast.UnaryOp) and isinstance(e.op, (ast.USub, ast.UAdd)):
+        return _path_ok(e.operand)
+    if isinstance(e, ast.BinOp) and isinstance(e.op, (ast.Add, ast.Sub, ast.Mult)):
+        return _path_ok(e.left) and _path_ok(e.right)
+    if isinstance(e, ast.Call) and isinstance(e.func, ast.Name) and not e.keywords and len(e.args) == 1:
+        if e.func.id == "float" and isinstance(e.args[0], ast.Constant):
+            return True
+        if e.func.id == "len" and isinstance(e.args[0], ast.Name):
+            return True
+    return False
+
+
+def _prefixes(e: ast.AST) -> list[str]:
+    out = []
+    while isinstance(e, (ast.Subscript, ast.Attribute)):
+        out.append(ast.unparse(e))
+        e = e.value
+    if isinstance(e, ast.Name):
+        out.append(e.id)
+    return out
+
+
+def _inline_new_aliases(fn: ast.AST, base_names: list) -> int:
+    known = set(base_names)
+    params = {a.arg for a in _all_args(fn.args)}
+    count = 0
+
+    def scope_nodes(f):
+        stack = list(f.body)
+        while stack:
+            n = stack.pop()
+            yield n
+            for c in ast.iter_child_nodes(n):
+                if not isinstance(c, (ast.FunctionDef, ast.AsyncFunctionDef, ast.Lambda, ast.ClassDef)):
+                    stack.append(c)
+
+    for f in [x for x in ast.walk(fn) if isinstance(x, (ast.FunctionDef, ast.AsyncFunctionDef))]:
+        own_params = {a.arg for a in _all_args(f.args)}
+        changed = True
+        while changed:
+            changed = False
+            blocks = [getattr(n, fld) for n in [f] + [x for x in scope_nodes(f)] for fld in ("body", "orelse", "finalbody") if isinstance(getattr(n, fld, None), list) and getattr(n, fld) and isinstance(getattr(n, fld)[0], ast.stmt)]
+            for B in blocks:
+                for i, st in enumerate(B):
+                    if not (isinstance(st, ast.Assign) and len(st.targets) == 1 and isinstance(st.targets[0], ast.Name)):
+                        continue
+                    a = st.targets[0].id
+                    if a in known or a in params or a in own_params or not _path_ok(st.value):
+                        continue
+                    # exactly one binding in the whole unit, no other kind of binding or deletion
+                    occ = [n for n in ast.walk(fn) if isinstance(n, ast.Name) and n.id == a]
+                    if sum(1 for n in occ if isinstance(n.ctx, (ast.Store, ast.Del))) != 1:
+                        continue
+                    if any(isinstance(n, (ast.Nonlocal, ast.Global)) and a in n.names for n in ast.walk(fn)):
+                        continue
+                    if any(isinstance(n, ast.arg) and n.arg == a for n in ast.walk(fn)):
+                        continue
+                    later = B[i + 1:]
+                    later_nodes = [n for x in later for n in ast.walk(x)]
+                    loads = [n for n in occ if isinstance(n.ctx, ast.Load)]
+                    if not loads or any(all(n is not m for m in later_nodes) for n in loads):
+                        continue  # a use outside the statements that follow in this block
+                    if any(isinstance(n, (ast.FunctionDef, ast.AsyncFunctionDef, ast.Lambda)) and any(isinstance(m, ast.Name) and m.id == a for m in ast.walk(n)) for n in later_nodes):
+                        continue
+                    parts = {n.id for n in ast.walk(st.value) if isinstance(n, ast.Name)}
+                    if any(isinstance(n, ast.Name) and n.id in parts and isinstance(n.ctx, (ast.Store, ast.Del)) for n in later_nodes):
+                        continue
+                    pre = set(_prefixes(st.value)) | {ast.unparse(x) for x in ast.walk(st.value) if isinstance(x, ast.Call) for x in x.args if isinstance(x, ast.Name)}
+                    bad = False
+                    for n in later_nodes:
+                        if isinstance(n, (ast.Subscript, ast.Attribute)) and isinstance(n.ctx, (ast.Store, ast.Del)) and ast.unparse(n) in pre:
+                            bad = True
+                        if isinstance(n, ast.Call) and isinstance(n.func, ast.Attribute) and n.func.attr in _MUTATING and ast.unparse(n.func.value) in (pre - {ast.unparse(st.value)} if isinstance(st.value, (ast.Subscript, ast.Attribute)) else pre):
+                            bad = True
+                        if isinstance(n, ast.Delete):
+                            for t_ in n.targets:
+                                if any(p_ in ast.unparse(t_) for p_ in pre):
+                                    bad = True
+                    if isinstance(st.value, ast.Call) and st.value.func.id == "len":
+                        nm = st.value.args[0].id
+                        for n in later_nodes:
+                            if isinstance(n, ast.Subscript) and isinstance(n.ctx, (ast.Store, ast.Del)) and isinstance(n.value, ast.Name) and n.value.id == nm:
+                                bad = True
+                    if bad:
+                        continue
+                    for n in loads:
+                        for parent in later_nodes:
+                            for fld, val in ast.iter_fields(parent):
+                                if val is n:
+                                    setattr(parent, fld, copy.deepcopy(st.value))
+                                elif isinstance(val, list):
+                                    for k_, v_ in enumerate(val):
+                                        if v_ is n:
+                                            val[k_] = copy.deepcopy(st.value)
+                    del B[i]
+                    if not B:
+                        B.append(ast.Pass())
+                    count += 1
+                    changed = True
+                    break
+                if changed:
+                    break
+    if count:
+        ast.fix_missing_locations(fn)
+    return count
+
+
 def derename(rel: str, tree: ast.Module) -> list[str]:
     """Rewrite units that equal their baseline up to surface edits into the baseline's surface form, in place.
     Returns the list of units rewritten."""
@@ -905,6 +1027,11 @@ def derename(rel: str, tree: ast.Module) -> list[str]:
                 if mp:
                     _apply_renames(fn, mp)
                     done.append(q + " (locals)")
+                try:
+                    if _inline_new_aliases(fn, b["names"]):
+                        done.append(q + " (aliases)")
+                except Exception:  # noqa: BLE001 - an optional normalisation must never stop the load
+                    pass
             continue
         if order == b["names"] and variants == b["variants"] and nf._comp_names == b.get("comp_names", nf._comp_names):
             continue
